@@ -24,6 +24,14 @@ CLAIMED = {
          "export_jackknife / import_jackknife / export_bootstrap are transcribed (Obs/Resample.v, including the ones-(L-1)*identity matrix product) and proved to be the leave-one-out transform, its inverse, and the mean over resampled configurations for every length and every table; "
          "the jackknife variance is proved equal to the squared naive error. The implementation is run on generated single-chain observables and Coq decides agreement with model and specification in exact rationals. import_bootstrap's least-squares solve is an oracle: only its result is judged against the specification (restores the samples).",
          "scipy lstsq, numpy's Generator.integers and md5 seeding are oracles (default table re-derived independently in the harness).", "§3 C13"),
+ "C15": ("proof", "Coq theorems over AST-regenerated stencil records (guards = references, formula = documented, no exception and exact definedness for all T and all None patterns) + in-Coq correspondence at value and observable level",
+         "Every loop of Corr.deriv / second_deriv / m_eff(log, logsym, arccosh) is re-extracted from correlators.py on every run as a record (range, None guards, value guards, expression, padding) and proved equal to the documented stencil; generic theorems (Corr/Stencil.v) then give, for every T and every pattern of undefined timeslices: no exception, undefined exactly where a referenced slice is undefined, the documented value elsewhere, extent preserved. "
+         "The regenerated records are executed in Coq against the implementation on all 2^T patterns (T=6 quick) and random ones; value, every fluctuation and replica means of defined slices (all variants incl. log, cosh/periodic/sinh, plateau fit/avg) are judged against the documented formula with C01's configuration-aligned specification.",
+         "partial clauses: the cosh/periodic/sinh effective masses (fsolve inside find_root) and fitted plateaus are covered by correspondence only (independent brentq root + implicit derivative; weighted mean); log/arccosh values are compared through the inverse function evaluated in floating point by the harness.", "§3 C15"),
+ "C19": ("proof", "Coq theorems over an exact digit model (round-half-even on the exact binary value, binary64 product) + character-exact in-Coq correspondence",
+         "_format_uncertainty / __format__ / CObs.__format__ / _extract_val_and_dval are modelled exactly on rationals (Obs/Format.v: correctly rounded fixed-point digits, the binary64 rounding of error*10^k, the three exponent branches, flags, rendering to strings); proved for ALL values, errors and significances: the printed value and error denote numbers within half a unit of the last printed digit (plus 2^-53 relative for errors below 1, which the code scales in floating point), both share the decimal place, the parser returns exactly the denoted numbers, flags touch only the leading character. "
+         "Every generated string is compared character by character with the model inside Coq, and the implementation's own parse / prior construction is judged against the half-unit specification.",
+         "np.log10 (exponent) is an oracle; cases within 2^-44 below a power of ten or within 2^-40 of a rounding tie are skipped and counted; Python's float formatting/parsing is assumed correctly rounded and cross-checked per case.", "§3 C19"),
 }
 NOT_YET = "check not built yet in this session (work in progress; see DESIGN.md §6 for the order of work)"
 
